@@ -211,7 +211,30 @@ func runProgram(dc dbCase, ops []dbOp, cfg int, cnt counting) (obs []string, err
 	}()
 	stor := storage.NewMemStorage()
 	phase := 0
+	// Users commonly keep ONE *opt.Options and pass it to every Open: when the filter setting of this phase names the
+	// same policies as the last one, half of the programs reuse the very same struct (and so the same AltFilters slice) —
+	// whatever Open does with the options must not accumulate across opens
+	optCache := map[string]*opt.Options{}
+	curSig := ""
 	mkopt := func() *opt.Options {
+		// the filter setting is a function of (cfg, class of the phase): same class, same policies
+		cls := 0
+		switch cfg {
+		case 4:
+			if phase == 0 {
+				cls = 0
+			} else if phase%2 == 1 {
+				cls = 1
+			} else {
+				cls = 2
+			}
+		case 5, 7:
+			cls = phase % 2
+		}
+		curSig = fmt.Sprintf("%d/%d", cfg, cls)
+		if o := optCache[curSig]; o != nil && dc.Seed%2 == 0 {
+			return o
+		}
 		f, alt := filterSetting(cfg, phase, cnt)
 		o := &opt.Options{Filter: f, AltFilters: alt, WriteBuffer: dc.WriteBuffer, BlockSize: dc.BlockSize, FilterBaseLg: dc.Lg,
 			CompactionTableSize: dc.TableSize, Compression: opt.NoCompression, NoSync: true, DisableSeeksCompaction: false,
@@ -220,6 +243,7 @@ func runProgram(dc dbCase, ops []dbOp, cfg int, cnt counting) (obs []string, err
 		if dc.NoCache {
 			o.DisableBlockCache = true
 		}
+		optCache[curSig] = o
 		return o
 	}
 	db, e := leveldb.Open(stor, mkopt())
